@@ -40,7 +40,7 @@ const (
 // Longest is default and has priority. Suffix and Prefix are mutually
 // exclusive.
 func Match(patterns []string, mode Mode, s string) (string, error) {
-	if mode&Suffix != 0 && mode&Prefix != 0 {
+	if mode&Suffix != 0 && mode&Prefix != 0 || len(patterns) == 0 {
 		return "", NoMatch
 	}
 	rx, err := compile(patterns, mode)
